@@ -6,7 +6,7 @@ from mirsym.values import *
 from mirsym.explore import Panic
 from mirsym import models_typst as T
 from mirsym import models_doc as D
-from mirsym.models_std import STD, Str, sym_str, is_ws, c_eq, str_eq
+from mirsym.models_std import STD, Str, sym_str, is_ws, c_eq, str_eq, valid_scalar
 from mirsym.models_typst import Node, Ast
 from mirsym.session import hexs, unhexs
 from . import pp
@@ -114,8 +114,190 @@ def explore_tokens(S, N):
     return found
 
 
-def explore_markup(S, K):
-    return []
+MCATS = ['text', 'space', 'par', 'expr', 'strong', 'line', 'block', 'hash', 'item']
+
+
+def explore_markup(S, K, want=('C08',)):
+    """collect_markup_repr + convert_markup_impl: interior whitespace maps 1-1; children conserved; mixed lines suppress breaks"""
+    from .lists import show_atoms, atoms_modes
+    kt = T.KT
+    core = S.core
+    fn = S.find_fn(core, 'PrettyPrinter::convert_markup_impl')
+    found = []
+
+    def sequences(k):
+        for combo in itertools.product(MCATS, repeat=k):
+            ok = True
+            for i, c in enumerate(combo):
+                nxt = combo[i + 1] if i + 1 < k else None
+                if c in ('space', 'par') and nxt in ('space', 'par'):
+                    ok = False          # whitespace tokens are never adjacent
+                if c == 'line' and nxt is not None and nxt not in ('space', 'par'):
+                    ok = False          # a line comment ends at a newline
+                if c == 'hash' and nxt not in ('expr',):
+                    ok = False          # a hash is followed by its expression
+            if ok:
+                yield combo
+
+    def make_body(combo):
+        def body(ctx):
+            calls = {}
+
+            def conv_expr(m, a, ci):
+                nd = T._node(m, a[2])
+                calls[nd.nid] = a[1]
+                return D.opaque_doc('expr', (nd.nid,))
+            ml = z3.Bool('is_multiline')
+            m = S.machine(core, STD, ctx, overrides={'convert_expr': conv_expr, 'is_multiline': (lambda mm, a, ci: ml)})
+            kids = []
+            for i, c in enumerate(combo):
+                if c == 'text':
+                    kids.append(Node(kt.k('Text'), text=Str.lit('w%d' % i)))
+                elif c == 'space':
+                    c0 = z3.BitVec('sp%d_0' % i, 32)
+                    ctx.assume(valid_scalar(c0))
+                    ctx.assume(is_ws(c0))
+                    if i > 0 and combo[i - 1] == 'line':
+                        ctx.assume(is_newline(c0))
+                    kids.append(Node(kt.k('Space'), text=Str((c0,))))
+                elif c == 'par':
+                    c0 = z3.BitVec('pb%d_0' % i, 32)
+                    c1 = z3.BitVec('pb%d_1' % i, 32)
+                    c2 = z3.BitVec('pb%d_2' % i, 32)
+                    for cc in (c0, c1, c2):
+                        ctx.assume(valid_scalar(cc))
+                        ctx.assume(is_ws(cc))
+                    # at least two newlines: first two characters are newlines that do not pair up as CR LF
+                    ctx.assume(is_newline(c0))
+                    ctx.assume(is_newline(c1))
+                    ctx.assume(z3.Not(z3.And(c0 == 13, c1 == 10)))
+                    kids.append(Node(kt.k('Parbreak'), text=Str((c0, c1, c2))))
+                elif c == 'expr':
+                    kids.append(Node(kt.k('FuncCall'), text=Str.lit('f%d' % i)))
+                elif c == 'strong':
+                    kids.append(Node(kt.k('Strong'), text=Str.lit('s%d' % i)))
+                elif c == 'line':
+                    kids.append(Node(kt.k('LineComment'), text=Str.lit('//c%d' % i)))
+                elif c == 'block':
+                    kids.append(Node(kt.k('BlockComment'), text=Str.lit('/*c%d*/' % i)))
+                elif c == 'hash':
+                    kids.append(Node(kt.k('Hash'), text=Str.lit('#')))
+                else:
+                    kids.append(Node(kt.k('ListItem'), text=Str.lit('i%d' % i)))
+            markup = Node(kt.k('Markup'), children=kids)
+            pr, cfg = pp.printer(m)
+            c0_ = pp.context()
+            scope = z3.BitVec('scope', 64)
+            ctx.assume(z3.ULT(scope, 4))
+
+            def describe(mdl):
+                return dict(children=list(combo), scope=('Document', 'ContentBlock', 'Strong', 'Item')[model_int(mdl, scope)], multiline=model_bool(mdl, ml),
+                            suppressed=model_bool(mdl, c0_.get('break_suppressed')),
+                            ws={str(i): kids[i].text.concrete(mdl) for i, c in enumerate(combo) if c in ('space', 'par')})
+            try:
+                d = m.call_fn(fn, [pr, c0_, Ast('Markup', markup), CEnum('MarkupScope', scope, 64)])
+            except Panic as p:
+                S.absorb(m)
+                ctx.must_hold(False, 'C05:markup-panic', lambda mdl: dict(describe(mdl), panic=p.msg))
+                return
+            S.absorb(m)
+            nonws = [i for i, c in enumerate(combo) if c not in ('space', 'par')]
+            if not nonws:
+                return          # only whitespace: everything is edge whitespace
+
+            def key_of(i):
+                c = combo[i]
+                nd = kids[i]
+                if c in ('expr', 'strong', 'item'):
+                    return ('o', nd.nid)
+                return ('t', nd.text.concrete())
+            for mode, at in atoms_modes(d).items():
+                def akey(a):
+                    if a[0] == 'o':
+                        return ('o', a[2][0])
+                    if a[0] == 't' and a[1].is_concrete():
+                        return ('t', a[1].concrete())
+                    return a
+                keys = [akey(a) for a in at]
+                # locate the non-whitespace children in order
+                pos = []
+                start = 0
+                okc = True
+                for i in nonws:
+                    k_ = key_of(i)
+                    try:
+                        j = keys.index(k_, start)
+                    except ValueError:
+                        okc = False
+                        break
+                    pos.append(j)
+                    start = j + 1
+                extra = [k_ for idx, k_ in enumerate(keys) if idx not in pos and k_ not in (('t', ' '), ('nl',))]
+                ctx.must_hold(okc and not extra, 'C08:markup-children-lost-duplicated-or-reordered', lambda mdl, mode=mode, at=at: dict(describe(mdl), mode=mode, atoms=show_atoms(at)))
+                if not okc:
+                    continue
+                conds = []
+                for (i1, j1), (i2, j2) in zip(zip(nonws, pos), zip(nonws[1:], pos[1:])):
+                    between = keys[j1 + 1:j2]
+                    if i2 == i1 + 1:
+                        conds.append(between == [])
+                    else:
+                        w = kids[i1 + 1]
+                        if combo[i1 + 1] == 'space':
+                            is_nl = between == [('nl',)]
+                            is_blank = between == [('t', ' ')]
+                            conds.append(is_nl or is_blank)
+                            conds.append(i_eq(is_nl, has_newline(w.text)))
+                        else:
+                            n = count_newlines_sym(ctx, w.text)
+                            conds.append(between == [('nl',)] * n)
+                ctx.must_hold(b_and(*conds), 'C08:interior-markup-whitespace-changed', lambda mdl, mode=mode, at=at: dict(describe(mdl), mode=mode, atoms=show_atoms(at)))
+            # expressions on a line that also holds text/strong/emph/raw are converted with breaks suppressed
+            line_start = 0
+            lines = []
+            cur = []
+            for i, c in enumerate(combo):
+                brk = c == 'par' or (c == 'space' and False)
+                cur.append(i)
+                if c == 'par':
+                    lines.append(cur)
+                    cur = []
+            lines.append(cur)
+            conds = []
+            for i, c in enumerate(combo):
+                if c in ('expr', 'strong') and kids[i].nid in calls:
+                    cx = calls[kids[i].nid]
+                    conds.append(i_eq(cx.get('mode').disc, 0, 64))     # markup mode
+                    # same source line = no whitespace-with-newline / parbreak between
+                    mixed = False
+                    for j, c2 in enumerate(combo):
+                        if c2 in ('text', 'strong') and j != i or (c2 == 'strong' and j == i):
+                            lo, hi = min(i, j), max(i, j)
+                            sep = False
+                            for q in range(lo + 1, hi):
+                                if combo[q] == 'par':
+                                    sep = True
+                                elif combo[q] == 'space':
+                                    sep = b_or(sep, has_newline(kids[q].text))
+                            mixed = b_or(mixed, b_not(sep))
+                    conds.append(b_implies(mixed, cx.get('break_suppressed')))
+                    conds.append(b_implies(b_and(b_not(mixed), b_not(c0_.get('break_suppressed'))), b_not(cx.get('break_suppressed'))))
+            ctx.must_hold(b_and(*conds), 'C08:expression-on-a-text-line-may-break', describe)
+            if 'par' in combo:
+                ctx.witness('markup with paragraph break')
+            if 'text' in combo and 'expr' in combo:
+                ctx.witness('mixed text and code')
+        return body
+
+    for k in range(1, K + 1):
+        for combo in sequences(k):
+            ob, ex = S.explore('markup[%s]' % ','.join(combo), 'convert_markup_impl over children %r, every scope / context / multiline flag' % (combo,),
+                               make_body(combo), bounds=dict(children=k))
+            for lab, mdl, info in ex.violations:
+                found.append((lab, info))
+            if ob.status.startswith('inconclusive'):
+                return found
+    return found
 
 
 # -- native confirmation ---------------------------------------------------------------------------------
@@ -191,7 +373,51 @@ def report(S, prop, found):
             S.inconclusive.append('%s: no solver model reproduced natively (%r)' % (lab, infos[0]))
 
 
+RENDER = {'text': 'w%d', 'expr': '#f%d()', 'strong': '*s%d*', 'line': '// c%d', 'block': '/* c%d */', 'hash': '', 'item': '- i%d'}
+
+
 def confirm_markup(S, info):
+    """rebuild the markup from the model and compare whitespace classes between consecutive children natively"""
+    kinds = info.get('children') or []
+    ws = info.get('ws') or {}
+    toks = []
+    src = ''
+    for i, c in enumerate(kinds):
+        if c in ('space', 'par'):
+            src += ws.get(str(i), ' ')
+            toks.append(None)
+        else:
+            t = RENDER[c] % i if '%d' in RENDER[c] else RENDER[c]
+            src += t
+            toks.append(t if t else None)
+    variants = [src + '\n', '[' + src + ']\n' if False else '#[' + src + ']\n', '*' + src + '*\n' if 'strong' not in kinds and 'par' not in kinds else None]
+    for v in variants:
+        if v is None or S.driver.call('erroneous', hexs(v))[1] == '1':
+            continue
+        for w in (80, 0):
+            r = S.driver.call('format', hexs(v), w, 2, 0)
+            if r[0] != 'ok':
+                return dict(what='format fails (%s) on %s' % (r[0], show(v)), api=dict(api='Typstyle::format_content', source=v, width=w))
+            out = unhexs(r[1])
+            pos = 0
+            prev_end = None
+            prev_idx = None
+            for i, t in enumerate(toks):
+                if t is None:
+                    continue
+                j = out.find(t, pos)
+                if j < 0:
+                    return dict(what='markup child %s lost: %s -> %s' % (t, show(v), show(out)), api=dict(api='Typstyle::format_content', source=v, width=w, output=out))
+                if prev_end is not None:
+                    between_src = ''.join(ws.get(str(q), ' ') for q in range(prev_idx + 1, i) if kinds[q] in ('space', 'par'))
+                    exp = expected_class(between_src) if between_src else 'none'
+                    got = classify_ws(out[prev_end:j])
+                    if got != exp and not (kinds[i] == 'item' or kinds[prev_idx] == 'item'):
+                        return dict(what='whitespace between %s and %s is %s in %s but %s in the output %s' % (toks[prev_idx], t, exp, show(v), got, show(out)),
+                                    api=dict(api='Typstyle::format_content', source=v, width=w, output=out))
+                prev_end = j + len(t)
+                prev_idx = i
+                pos = prev_end
     return None
 
 
